@@ -25,37 +25,83 @@ DISCARD = [False, True]
 OUTCOMES = ['return', 'raise', 'interrupt']
 DRAWS = [0.05, 0.9]
 ORDER = ['force_first', 'discard_first']
-DIMS = [SKIPPED, RATES, FORCED, IGNORE, DISCARD, OUTCOMES, DRAWS, ORDER]
+OPKIND = ['instance', 'class']
+DIMS = [SKIPPED, RATES, FORCED, IGNORE, DISCARD, OUTCOMES, DRAWS, ORDER, OPKIND]
 NROWS = 1
 for d in DIMS:
     NROWS *= len(d)
-CHUNK = 96
+CHUNK = 128
 NCHUNKS = (NROWS + CHUNK - 1) // CHUNK
 
 META = {
     'engine': 'recplay',
     'level': 'exploration',
     'level_text': ('The decision table skipped x rate {0, 0.3, 1, 1.5} x forced x ignore-forcing x discard x outcome {return, raise, '
-                   'interrupt} x scripted draw {well inside, well outside} x order of force/discard (1536 rows) is enumerated '
+                   'interrupt} x scripted draw {well inside, well outside} x order of force/discard x instance / class-level operation (3072 rows) is enumerated '
                    'completely against the real recorder with a scripted RNG that counts draws; beyond it seeded histories: '
                    'same seed twice, paired histories differing only in operation content and outcome, long-run kept fraction, '
                    'histories mixing classes with different parameters (force must not leak), and the S3 size-based calculator.'),
     'level_note': 'Trusted: scripted RNG seam (recorder._random / cassette._random instance attributes), spy cassette. The exact draw stream of the real RNG and a draw exactly equal to the rate are deliberately not pinned.',
     'rule': ('evaluation = one table row, or one seeded history (200-2000 operations on one recorder); non-trivial = the row / history '
-             'reached a sampling decision; distinct = distinct event-log digest. exhaustive=true refers to the 1536-row table.'),
-    'exhaustive_part': 'decision table of 1536 rows (all combinations listed in level_text)',
+             'reached a sampling decision; distinct = distinct event-log digest. exhaustive=true refers to the 3072-row table.'),
+    'exhaustive_part': 'decision table of 3072 rows (all combinations listed in level_text)',
     'table_chunks': {'quick': NCHUNKS, 'thorough': NCHUNKS},
     'assumptions': ['uniform draws are taken from the recorder\'s own Random instance', 'operations are not nested'],
     'components_real': ['TapeRecorder sampling decision, force / discard / skip handling', 'S3TapeCassette._should_sample', 'random.Random (history part)'],
     'components_stub': ['scripted RNG (table part)', 'spy cassette', 'S3 bucket'],
     'budgets': {'quick': {'seconds': 25}, 'thorough': {'seconds': 300}},
-    'required_probes': {'quick': ['table_row'], 'thorough': ['table_row', 'history_same_seed', 'history_paired', 'history_mixed_classes', 's3_calculator']},
+    'required_probes': {'quick': ['table_row'], 'thorough': ['table_row', 'history_same_seed', 'history_paired', 'history_mixed_classes', 's3_calculator', 'straggler_force']},
 }
+
+
+def straggler_force(tape):
+    """A worker thread of the operation asks for forced sampling while the operation is returning; whatever happens to
+    that recording, the request must not stick to the recorder: the next operation is decided by its own policy."""
+    import os
+    from simkit import REPO
+    from simkit.sim import Sim, SimDeadlock
+    run = Run(PROP)
+    sim = Sim(tape, run, preempt_p=tape.choice([0.05, 0.2, 0.5]), target_files=[os.path.join(REPO, 'playback', 'tape_recorder.py')], max_steps=60000)
+    spy = R.SpyCassette(InMemoryTapeCassette(), run)
+    recorder = TapeRecorder(spy)
+    rng = R.ScriptedRandom([], default=0.9)
+    recorder._random = rng
+    first_params = {'sampling_rate': tape.choice([0.0, 0.3, 1.0]), 'ignore_enforced_sampling': bool(tape.draw(2))}
+    first = simple_spec('OpA', [['spawn', [[['force']] * (1 + tape.draw(2))], True]], first_params)
+    second_params = {'sampling_rate': tape.choice([0.0, 0.3]), 'ignore_enforced_sampling': bool(tape.draw(2))}
+    second = simple_spec('OpB', [], second_params)
+    result = {}
+
+    def main():
+        a = R.record_once(first, run, spy, recorder=recorder, thread_factory=R.sim_thread_factory(sim))
+        for name, th, tobs, strag in a.svc.threads:
+            th.join()
+        result['idle_forced'] = recorder.is_recording_sample_forced
+        before = len(spy.calls)
+        R.record_once(second, run, spy, recorder=recorder)
+        result['second'] = [c[0] for c in spy.calls[before:] if c[0] != 'create']
+    try:
+        sim.run_main(main)
+    except SimDeadlock as ex:
+        run.violate('decision_in_history', 'deadlock', str(ex))
+        return run
+    run.probe('straggler_force')
+    run.nontrivial = sim.switches > 2
+    run.say('first %s then %s: second operation %s, forced flag while idle %s' % (first_params, second_params, result.get('second'), result.get('idle_forced')))
+    run.ev('straggler', first_params, second_params, result.get('second'), result.get('idle_forced'))
+    run.check(not result.get('idle_forced'), 'force_not_sticky', 'sticky-force-after-straggler', 'forced sampling is set on an idle recorder after a worker thread asked for it while its operation ended')
+    exp = expected_keep(False, second_params['sampling_rate'], False, second_params['ignore_enforced_sampling'], False, 0.9)
+    got = '+'.join(result.get('second', [])) or 'none'
+    if got != exp:
+        run.violate('decision_in_history', 'history-row:leak-from-straggler', 'after a straggler force request the next operation (rate %s, no force) was %s, policy says %s' % (second_params['sampling_rate'], got, exp))
+    return run
 
 
 def run_tape(tape):
     with seams.deterministic(tape) as clock:
-        mode = tape.draw(6)
+        mode = tape.draw(7)
+        if mode == 6:
+            return straggler_force(tape)
         if mode == 1:
             return table_row(tape)
         if mode in (0, 2):
@@ -73,9 +119,10 @@ def decode_row(idx):
     return vals
 
 
-def simple_spec(name, steps, params):
+def simple_spec(name, steps, params, kind='instance'):
     spec = R.ServiceSpec()
     spec.op.name = name
+    spec.op.kind = kind
     spec.op.params = params
     spec.body = steps
     return spec
@@ -97,7 +144,7 @@ def expected_keep(skipped, rate, forced, ignore, discard, draw):
 def table_row(tape):
     run = Run(PROP)
     idx = tape.draw(NROWS)
-    skipped, rate, forced, ignore, discard, outcome, draw, order = decode_row(idx)
+    skipped, rate, forced, ignore, discard, outcome, draw, order, opkind = decode_row(idx)
     steps = []
     fd = ([['force']] if forced else []) + ([['discard']] if discard else [])
     if order == 'discard_first':
@@ -108,7 +155,7 @@ def table_row(tape):
     elif outcome == 'interrupt':
         steps.append(['interrupt'])
     params = {'sampling_rate': rate, 'ignore_enforced_sampling': ignore, 'skipped': skipped}
-    spec = simple_spec('OpA', steps, params)
+    spec = simple_spec('OpA', steps, params, opkind)
     spy = R.SpyCassette(InMemoryTapeCassette(), run)
     recorder = TapeRecorder(spy)
     rng = R.ScriptedRandom([draw])
@@ -117,7 +164,7 @@ def table_row(tape):
     calls = spy.mutations()
     got = 'none' if not calls else '+'.join(c[0] for c in calls if c[0] != 'create')
     exp = expected_keep(skipped, rate, forced, ignore, discard, draw)
-    row = 'skipped=%s rate=%s forced=%s ignore=%s discard=%s outcome=%s draw=%s %s' % (skipped, rate, forced, ignore, discard, outcome, draw, order)
+    row = '%s-level operation skipped=%s rate=%s forced=%s ignore=%s discard=%s outcome=%s draw=%s %s' % (opkind, skipped, rate, forced, ignore, discard, outcome, draw, order)
     run.say('row %d: %s -> %s (model %s), %d draws' % (idx, row, got, exp, rng.draws))
     run.ev('row', idx, got, rng.draws, rec.outcome.kind)
     run.probe('table_row')
@@ -275,5 +322,5 @@ def run_index(i, seed, tier, emit):
     t = Tape(seed)
     if t.rng.random() < 0.0:
         pass
-    t = Tape(seed, prefix=[[0, 3, 5, 2, 4, 5][i % 6]])
+    t = Tape(seed, prefix=[[0, 3, 5, 2, 4, 5, 6, 6][i % 8]])
     emit(safe_run_tape(mod, t), t)
